@@ -31,7 +31,9 @@ RULE = ("Hypothesis draws (per task: payload size, number of sleep(0) before "
         "frame: latency, loss, duplication; unknown frames); non-trivial = at "
         "least 2 requests shared a frame and at least one fault (wkc 0, loss, "
         "duplicate, unknown frame, oversize) or cancellation occurred; "
-        "distinct by (frame grouping sizes, fault kinds, cancellation count)")
+        "distinct by (frame grouping sizes, fault kinds, cancellation count); "
+        "plus an enumerated family of late duplicates of answered frames "
+        "while a frame with a related index is outstanding")
 ASSUMPTIONS = [
     "asyncio's FIFO order of ready callbacks is kept; orderings come from "
     "task start order, sleep(0) counts, latencies and cancellation instants",
